@@ -1,5 +1,17 @@
-import RigModel.Model.C02
-#check @List.Nodup.sublist
-#check @List.filter_sublist
-#check @List.Sublist.nodup
-#check @List.Nodup.filter
+import RigModel.Props.C02
+namespace Rig.C02
+open Vtx Constraint
+
+def exVR : VR := [(o 0, [1, 0]), (o 1, [1, 2]), (o 2, [0, 1])]
+def exCS : List Constraint := [same [o 0, o 1], loc (o 1) (1, 0), reserve 1 1 none, loc (o 0) (1, 0)]
+def exM : Machine := { w := 2, h := 1, res := [5, 8], exc := [((0, 0), [1, 2])], dead := [] }
+
+#eval seqPlace exVR exCS exM (some [o 2, o 1, o 0]) (some [(1,0),(0,0)])
+#eval randPlace exVR exCS exM [(1,0),(0,0)]
+#eval applySame exVR exCS
+
+example : seqPlace exVR exCS exM (some [o 2, o 1, o 0]) (some [(1,0),(0,0)]) =
+    .ok [(o 2, (1,0)), (o 0, (1, 0)), (o 1, (1, 0))] := by rfl
+example : randPlace exVR exCS exM [(0,0),(1,0)] =
+    .ok [(o 2, (1,0)), (o 0, (1, 0)), (o 1, (1, 0))] := by rfl
+end Rig.C02
